@@ -337,7 +337,7 @@ pub fn run(ctx: &Ctx) -> Evidence {
             ctx.require(&format!("cases of kind *{}*", k), g(k), 20);
         }
     }
-    ev.assumptions.push("SNA layout typed from the format documentation; SNA carries IFF2 only, states are generated with IFF1 == IFF2; saving machine is not halted and not inside a prefix chain (the format cannot carry that)".into());
+    ev.assumptions.push("SNA layout typed from the format documentation; SNA carries IFF2 only, states are generated with IFF1 == IFF2; the saving machine is never inside a prefix chain (the format cannot carry that); one in six sits in HALT, where the file must hold the address of the HALT so that the loaded machine halts again".into());
     ev.assumptions.push("the frame clock is not an item of the statement: clock movement caused by saving is counted, not judged".into());
     ev
 }
